@@ -632,6 +632,8 @@ def run(ctx):
     for kind in kinds:
         cases = [c for c in corpus if c and c.get('transport') == kind] + gen_cases(kind, ctx.rng, thorough)
         for case in cases:
+            if ctx.failures or len(ctx.disagreements) >= 3:
+                break                              # a confirmed violation / broken tie: report it, do not pile up time-outs
             res = check_case(ctx, case, files, ctx.model)
             ctx.count(case, nontrivial=(case.get('fault') not in ('nolistener',)))
             ctx.traces += 1 if res['model'] is not None and res['model'].get('accepted') else 0
@@ -640,6 +642,8 @@ def run(ctx):
             if res['obs'].get('exit_delay') is not None: ctx.hist('worker_exit_delay_s', '%.1f' % res['obs']['exit_delay'])
             if ctx.evaluations % 17 == 1:
                 ctx.sample({'case': case, 'obs': {k: v for k, v in res['obs'].items() if k != 'reqs'}, 'n_labels': len(res['labels'])})
+        if ctx.failures or len(ctx.disagreements) >= 3:
+            break
         n = 20 if not thorough else 50
         lk = cycles(kind, files, n, ctx)
         ctx.extra.setdefault('cycles', {})[kind] = dict(n=n, **lk)
